@@ -49,6 +49,15 @@ def _lt_job(i):
             m = r.model["__model__"]
             cex = {"named": csxlib.model_inputs(sx, ir, m, ["x"]), "classes": csxlib.model_all_classes(sx, m)}
         out.append((r.name, r.kind, r.verdict, r.secs, cex))
+    # completeness probe: every assigned x is in range, so the gadget must have a witness for it
+    for label, named, verdict in csxlib.genfail_probes(sx, ir):
+        nm = f"{kind}(c={c},w={w}): in-range element {named.get('x')} has a witness (completeness)"
+        if verdict == "UNSAT":
+            out.append((nm, "holds", "CEX", 0.0, {"named": named, "classes": {}, "completeness": True}))
+        elif verdict == "SAT":
+            out.append((nm + " [constraints satisfiable, but the real generator fails]", "holds", "UNKNOWN", 0.0, None))
+        else:
+            out.append((nm, "holds", "UNKNOWN", 0.0, None))
     return i, out, nval, vfails, sx.abstracted
 
 
@@ -90,8 +99,11 @@ def c30(pid, tier):
                     # a gadget violation reproduces when the real verifier accepts a proof whose public
                     # output / input contradicts the integer comparison
                     ok = False
+                    if cex.get("completeness"):
+                        # completeness violation reproduces when the real prover cannot prove the in-range input
+                        ok = not any(o.get("accepted") for o in rp)
                     for o in rp:
-                        if o.get("accepted"):
+                        if o.get("accepted") and not cex.get("completeness"):
                             x = cex["named"]["x"][0]
                             pis = o.get("public_inputs", [])
                             if k == "lt":
